@@ -399,3 +399,236 @@ Proof.
   rewrite F. destruct reason as [z|]; [|reflexivity]. cbn [reason_out app].
   destruct (z =? 0)%Z; reflexivity.
 Qed.
+
+(* ------------------------------------------------------------------ *)
+(* revocation lists                                                     *)
+Definition expected_pentry (e : rl_entry) : rl_pentry :=
+  let '(s, t, r, _) := e in (s, t, reason_out r, rl_entry_exts e).
+
+Definition wf_rl_entry (e : rl_entry) : bool :=
+  let '(_, t, r, x) := e in
+  valid_civil t && wf_exts_cb x &&
+  match r with Some z => (- 2 ^ 55 <? z)%Z && (z <? 2 ^ 55)%Z | None => true end.
+
+Record wf_rl (i : rl_input) : Prop := {
+  wr_issuer : wf_name_cb (r_issuer i) = true;
+  wr_this : valid_civil (r_this i) = true;
+  wr_next : valid_civil (r_next i) = true;
+  wr_next_set : zero_time (r_next i) = false;
+  wr_revoked : forallb wf_rl_entry (r_revoked i) = true;
+  wr_extra : wf_exts_cb (r_extra i) = true;
+  (* extra list extensions other than the two the writer generates *)
+  wr_extra_other : forallb (fun e => negb (oid_eqb (ext_id e) oid_aki) && negb (oid_eqb (ext_id e) oid_crlnumber)) (r_extra i) = true
+}.
+
+Lemma wf_exts_cb_filter p l : wf_exts_cb l = true -> wf_exts_cb (filter p l) = true.
+Proof.
+  unfold wf_exts_cb. rewrite !forallb_forall. intros H x Hx. apply filter_In in Hx as [Hx _]. now apply H.
+Qed.
+
+Lemma wf_exts_cb_wf l : wf_exts_cb l = true -> wf_exts l = true.
+Proof.
+  unfold wf_exts_cb, wf_exts. rewrite !forallb_forall. intros H x Hx. apply wf_oid_cb_wf. now apply H.
+Qed.
+
+Lemma rl_entry_exts_wf e : wf_rl_entry e = true -> wf_exts_cb (rl_entry_exts e) = true.
+Proof.
+  destruct e as [[[s t] r] x]. cbn [wf_rl_entry]. intros W. apply andb_prop in W as [W _]. apply andb_prop in W as [_ Wx].
+  unfold rl_entry_exts, wf_exts_cb. rewrite forallb_app. fold (wf_exts_cb (filter (fun x0 => negb (oid_eqb (ext_id x0) oid_reason)) x)).
+  rewrite wf_exts_cb_filter by exact Wx. destruct r as [z|]; [|reflexivity]. destruct (z =? 0)%Z; reflexivity.
+Qed.
+
+Lemma read_rl_entry_build e d : wf_rl_entry e = true -> build_entry (rl_to_entry e) = Some d ->
+  read_rl_entry d = Some (expected_pentry e) /\ wfb d = true.
+Proof.
+  intros W. pose proof (rl_entry_exts_wf e W) as Wx. pose proof (reason_code_rule e) as RR.
+  destruct e as [[[s t] r] x]. cbn [rl_to_entry build_entry expected_pentry] in *.
+  cbn [wf_rl_entry] in W. apply andb_prop in W as [W Wr]. apply andb_prop in W as [Wt _].
+  destruct (build_time t) as [td|] eqn:Et; [|discriminate].
+  destruct (omap build_ext (rl_entry_exts (s, t, r, x))) as [es|] eqn:Ees; [|discriminate].
+  intros E; injection E as <-.
+  destruct (read_build_time _ _ Wt Et) as [Rt Wtd].
+  destruct (read_exts_cb_build _ _ Ees Wx) as [Res Wes].
+  assert (Hr : entry_reason (rl_entry_exts (s, t, r, x)) None = Some (reason_out r)).
+  { apply RR. destruct r as [z|]; [|lia]. apply andb_prop in Wr as [A B]. apply Z.ltb_lt in A, B. lia. }
+  unfold seq, d_int. destruct es as [|e0 er].
+  - assert (Hx : rl_entry_exts (s, t, r, x) = []).
+    { destruct (rl_entry_exts (s, t, r, x)) as [|y l]; [reflexivity|].
+      cbn in Ees. destruct (build_ext y), (omap build_ext l); discriminate. }
+    rewrite Hx in *. cbn [app read_rl_entry]. rewrite dec_enc_int, Rt. cbn [entry_reason] in Hr.
+    injection Hr as Hr. rewrite <- Hr. cbn [entry_reason]. split; [reflexivity|]. cbn [wfb forallb]. now rewrite Wtd.
+  - cbn [app read_rl_entry]. rewrite dec_enc_int, Rt, Res, Hr. split; [reflexivity|].
+    cbn [wfb forallb] in *. now rewrite Wtd, Wes.
+Qed.
+
+Lemma read_rl_entries_build l ds : forallb wf_rl_entry l = true -> omap build_entry (map rl_to_entry l) = Some ds ->
+  omap read_rl_entry ds = Some (map expected_pentry l) /\ forallb wfb ds = true.
+Proof.
+  revert ds. induction l as [|e l IH]; intros ds W H.
+  - cbn in H. injection H as <-. split; reflexivity.
+  - cbn [forallb] in W. apply andb_prop in W as [W1 W2]. cbn [map omap] in H.
+    destruct (build_entry (rl_to_entry e)) as [d|] eqn:Ed; [|discriminate].
+    destruct (omap build_entry (map rl_to_entry l)) as [ds'|] eqn:El; [|discriminate].
+    injection H as <-. destruct (IH ds' W2 eq_refl) as [I1 I2].
+    destruct (read_rl_entry_build _ _ W1 Ed) as [R Wd]. cbn [omap map forallb]. now rewrite R, I1, Wd, I2.
+Qed.
+
+Lemma rl_list_exts_other l num aki :
+  forallb (fun e => negb (oid_eqb (ext_id e) oid_aki) && negb (oid_eqb (ext_id e) oid_crlnumber)) l = true ->
+  rl_list_exts l num aki = Some (num, aki).
+Proof.
+  revert num aki. induction l as [|e l IH]; intros num aki H; [reflexivity|].
+  cbn [forallb] in H. apply andb_prop in H as [H1 H2]. apply andb_prop in H1 as [A B].
+  apply negb_true_iff in A, B. cbn [rl_list_exts]. rewrite A, B. now apply IH.
+Qed.
+
+Definition rl_exts (i : rl_input) : list ext :=
+  (oid_aki, false, emit (build_aki (r_issuer_ski i))) :: (oid_crlnumber, false, emit (d_int (r_number i))) :: r_extra i.
+
+Theorem rl_roundtrip i tbs a sig rest :
+  wf_rl i -> build_rl_tbs i = Some (tbs, a) ->
+  exists f,
+    parse_rl (emit (seq [tbs; a; Prim 0 3 (0 :: sig)]) ++ rest) = Some f /\
+    rf_sigalg f = expected_sigalg (r_key i) (r_sigalg i) /\
+    name_rel (r_issuer i) (rf_issuer f) /\
+    rf_this f = r_this i /\ rf_next f = Some (r_next i) /\
+    rf_revoked f = map expected_pentry (r_revoked i) /\
+    rf_number f = Some (r_number i) /\
+    rf_aki f = r_issuer_ski i /\
+    rf_exts f = rl_exts i.
+Proof.
+  intros [Wiss Wthis Wnext Wz Wrev Wx Wxo] Hb.
+  unfold build_rl_tbs in Hb.
+  destruct (negb (r_issuer_crlsign i)); [discriminate|].
+  destruct (negb (nonempty (r_issuer_ski i))); [discriminate|].
+  destruct (civil_ltb (r_next i) (r_this i)); [discriminate|].
+  destruct (signing_alg (r_key i) (r_sigalg i)) as [alg|] eqn:Ealg; [|discriminate].
+  destruct (number_too_long (r_number i)); [discriminate|].
+  destruct (build_algid alg) as [ad|] eqn:Ead; [|discriminate].
+  destruct (build_name (r_issuer i)) as [iss|] eqn:Eiss; [|discriminate].
+  destruct (build_time (r_this i)) as [this|] eqn:Ethis; [|discriminate].
+  destruct (build_time (r_next i)) as [next|] eqn:Enext; [|discriminate].
+  destruct (omap build_entry (map rl_to_entry (r_revoked i))) as [rs|] eqn:Ers; [|discriminate].
+  fold (rl_exts i) in Hb.
+  destruct (omap build_ext (rl_exts i)) as [es|] eqn:Ees; [|discriminate].
+  injection Hb as <- <-.
+  destruct (sigalg2_spec _ _ _ Ealg) as [Salg Walgo].
+  destruct (algid_built _ _ _ _ Ealg Ead) as (Ralg & Walg & kids & Eshape).
+  pose proof (read_algid_cb_build _ _ Walgo Ead) as Ralg2. rewrite Ralg in Ralg2. subst ad.
+  destruct (name_roundtrip _ _ (wf_name_cb_wf _ Wiss) Eiss) as (iss' & Riss & Piss & Wissd).
+  pose proof (read_name_cb_build _ _ Wiss Eiss) as Riss2. rewrite Riss in Riss2.
+  destruct (read_build_time _ _ Wthis Ethis) as [Rthis Wthisd].
+  destruct (read_build_time _ _ Wnext Enext) as [Rnext Wnextd].
+  pose proof (build_time_is_time _ _ Enext) as Tnext.
+  destruct (read_rl_entries_build _ _ Wrev Ers) as [Rrs Wrs].
+  assert (Wexts : wf_exts_cb (rl_exts i) = true).
+  { unfold rl_exts, wf_exts_cb. cbn [forallb ext_id fst]. fold (wf_exts_cb (r_extra i)). now rewrite Wx. }
+  destruct (read_exts_cb_build _ _ Ees Wexts) as [Res Wes].
+  assert (Hlist : rl_list_exts (rl_exts i) None [] = Some (Some (r_number i), r_issuer_ski i)).
+  { unfold rl_exts. cbn [rl_list_exts ext_id ext_val fst snd].
+    change (oid_eqb oid_aki oid_aki) with true. cbv iota.
+    rewrite parse_all_emit by reflexivity. cbn [obind build_aki seq read_aki].
+    change (oid_eqb oid_crlnumber oid_aki) with false. change (oid_eqb oid_crlnumber oid_crlnumber) with true. cbv iota.
+    rewrite first_elem_emit by reflexivity. unfold d_int. rewrite dec_enc_int. now apply rl_list_exts_other. }
+  exists (mk_rl_fields (sigalg_of2 alg) iss' (r_this i) (Some (r_next i)) (map expected_pentry (r_revoked i))
+            (Some (r_number i)) (r_issuer_ski i) (rl_exts i)).
+  split.
+  { unfold parse_rl. rewrite parse_emit.
+    2:{ unfold seq, d_int, opt_time_elem. rewrite Wz. cbn [wfb forallb app] in *. rewrite Walg, Wissd, Wthisd, Wnextd.
+        destruct rs; cbn [app forallb wfb]; cbn [forallb] in Wrs; rewrite ?Wrs, Wes; reflexivity. }
+    unfold seq, d_int, opt_time_elem. rewrite Wz. cbn [app read_rl].
+    change (dec_int64 (enc_int 1)) with (Some 1%Z). cbn [option_eqb Z.eqb Pos.eqb negb].
+    cbn [raw_bytes]. unfold bytes_eqb. rewrite (list_eqb_refl N.eqb N.eqb_refl). cbn [negb orb].
+    rewrite Tnext, Ralg2, Riss2, Rthis, Rnext.
+    destruct rs as [|r0 rr].
+    - assert (Hnil : r_revoked i = []).
+      { destruct (r_revoked i) as [|e l]; [reflexivity|]. cbn in Ers.
+        destruct (build_entry (rl_to_entry e)), (omap build_entry (map rl_to_entry l)); discriminate. }
+      rewrite Hnil. cbn [app map]. rewrite Res, Hlist. reflexivity.
+    - cbn [app]. rewrite Rrs, Res, Hlist. reflexivity. }
+  cbn [rf_sigalg rf_issuer rf_this rf_next rf_revoked rf_number rf_aki rf_exts].
+  repeat split; try reflexivity; assumption.
+Qed.
+
+(* ------------------------------------------------------------------ *)
+(* self-verification: the verifier is handed the algorithm the signer used
+   (the signature scheme's correctness is the premise)                   *)
+Section Sig.
+  Variable sign : keykind -> N -> bytes -> bytes.
+  Variable verify : keykind -> N -> bytes -> bytes -> bool.
+  Hypothesis sign_verify : forall k alg msg, verify k alg msg (sign k alg msg) = true.
+
+  Theorem csr_self_verifies i tbs a sig f :
+    wf_csr i -> build_csr_tbs i = Some (tbs, a) ->
+    parse_csr (emit (seq [tbs; a; Prim 0 3 (0 :: sig)])) = Some f ->
+    verify (ci_key i) (cf_sigalg f) (emit tbs)
+           (sign (ci_key i) (expected_sigalg (ci_key i) (c_sigalg (ci_t i))) (emit tbs)) = true.
+  Proof.
+    intros W E P. destruct (csr_roundtrip i tbs a sig W E) as (f' & P' & _ & Hs & _).
+    rewrite P in P'. injection P' as <-. rewrite Hs. apply sign_verify.
+  Qed.
+
+  Theorem crl_verifies i tbs a sig f :
+    wf_crl i -> build_crl_tbs i = Some (tbs, a) ->
+    parse_crl (emit (seq [tbs; a; Prim 0 3 (0 :: sig)])) = Some f ->
+    verify (l_key i) (lf_sigalg f) (emit tbs) (sign (l_key i) (default_sigalg (l_key i)) (emit tbs)) = true.
+  Proof.
+    intros W E P. destruct (crl_roundtrip i tbs a sig W E) as (f' & P' & _ & Hs & _).
+    rewrite P in P'. injection P' as <-. rewrite Hs. apply sign_verify.
+  Qed.
+
+  Theorem rl_verifies i tbs a sig f :
+    wf_rl i -> build_rl_tbs i = Some (tbs, a) ->
+    parse_rl (emit (seq [tbs; a; Prim 0 3 (0 :: sig)])) = Some f ->
+    verify (r_key i) (rf_sigalg f) (emit tbs)
+           (sign (r_key i) (expected_sigalg (r_key i) (r_sigalg i)) (emit tbs)) = true.
+  Proof.
+    intros W E P. destruct (rl_roundtrip i tbs a sig [] W E) as (f' & P' & Hs & _).
+    rewrite app_nil_r in P'. rewrite P in P'. injection P' as <-. rewrite Hs. apply sign_verify.
+  Qed.
+End Sig.
+
+(* ------------------------------------------------------------------ *)
+(* non-vacuity                                                          *)
+Definition ex_csr : csr_input :=
+  mk_csr_input KEd (spki 7)
+    (mk_csr 0 ex_name [[97; 46; 98]] [] [v4_in_v6_prefix ++ [10; 1; 2; 3]] [([1; 2; 3; 4], true, [5; 0])]).
+
+Lemma ex_csr_wf : wf_csr ex_csr.
+Proof.
+  constructor; try reflexivity. vm_compute. do 4 eexists. split; reflexivity.
+Qed.
+
+Lemma ex_csr_builds : exists tbs a f, build_csr_tbs ex_csr = Some (tbs, a) /\
+  parse_csr (emit (seq [tbs; a; Prim 0 3 [0; 1; 2]])) = Some f /\
+  cf_ips f = [[10; 1; 2; 3]] /\ length (cf_exts f) = 2%nat /\
+  existsb ext_crit (cf_exts f) = true.
+Proof. vm_compute. do 3 eexists. repeat split. Qed.
+
+Definition ex_rl : rl_input :=
+  mk_rl_input KEd 0 ex_name [1; 2; 3; 4] true 5%Z (Build_civil 2026 1 2 3 4 5) (Build_civil 2050 2 2 3 4 5)
+    [(2%Z, Build_civil 2025 12 1 0 0 0, Some 1%Z, [([2; 5; 29; 21], false, [10; 1; 5])]);
+     (3%Z, Build_civil 2025 12 1 0 0 0, Some 0%Z, []);
+     (4%Z, Build_civil 1949 12 1 0 0 0, None, [([2; 5; 29; 24], false, [1])])]
+    [([1; 2; 3; 4], true, [0])].
+
+Lemma ex_rl_wf : wf_rl ex_rl.
+Proof. constructor; reflexivity. Qed.
+
+Lemma ex_rl_builds : exists tbs a f, build_rl_tbs ex_rl = Some (tbs, a) /\
+  parse_rl (emit (seq [tbs; a; Prim 0 3 [0; 1; 2]])) = Some f /\
+  map (fun e : rl_pentry => snd (fst e)) (rf_revoked f) = [Some 1%Z; None; None] /\
+  rf_aki f = [1; 2; 3; 4] /\ rf_number f = Some 5%Z.
+Proof. vm_compute. do 3 eexists. repeat split. Qed.
+
+Definition ex_crl : crl_input :=
+  mk_crl_input (KEC 384) ex_name [9; 9] (Build_civil 2026 1 2 3 4 5) (Build_civil 2050 2 2 3 4 5)
+    [(2%Z, Build_civil 2025 12 1 0 0 0, []); ((-5)%Z, Build_civil 2051 12 1 0 0 0, [([1; 2; 3], true, [7])])].
+
+Lemma ex_crl_wf : wf_crl ex_crl.
+Proof. constructor; reflexivity. Qed.
+
+Lemma ex_crl_builds : exists tbs a f, build_crl_tbs ex_crl = Some (tbs, a) /\
+  parse_crl (emit (seq [tbs; a; Prim 0 3 [0; 1; 2]])) = Some f /\
+  length (lf_revoked f) = 2%nat /\ lf_sigalg f = 11 /\ length (lf_exts f) = 1%nat.
+Proof. vm_compute. do 3 eexists. repeat split. Qed.
